@@ -12,6 +12,13 @@ mkdir -p "$ROOT/.build" "$ROOT/evidence"
 BIN="$ROOT/.build/vcheck.$PROP.$$"
 trap 'rm -f "$BIN"' EXIT
 FLAGS="-tags verif"
+# VERIF_REPO (optional, sweeps only): build against another checkout of the repository than /repo
+if [ -n "${VERIF_REPO:-}" ] && [ "$VERIF_REPO" != "/repo" ]; then
+  MODF="$ROOT/.build/go.$PROP.$$.mod"
+  sed "s#=> /repo/src#=> $VERIF_REPO/src#" go.mod > "$MODF"; cp go.sum "${MODF%.mod}.sum"
+  FLAGS="$FLAGS -modfile=$MODF"
+  trap 'rm -f "$BIN" "$MODF" "${MODF%.mod}.sum"' EXIT
+fi
 [ "$RACE" = "race" ] && FLAGS="$FLAGS -race"
 if ! go build $FLAGS -o "$BIN" ./cmd/vcheck > "$ROOT/.build/build.$PROP.log" 2>&1; then
   cat "$ROOT/.build/build.$PROP.log" | tail -30
